@@ -110,6 +110,9 @@ impl Model for C19Model {
         if w.cfg.disk {
             ops.push(Op::Restart);
         }
+        // time passes: the next (possibly empty) exchange carries a new
+        // time stamp, which has to survive a restart like everything else
+        ops.push(Op::Tick { secs: 3600 });
         ops
     }
 
